@@ -65,7 +65,10 @@ def _sld_case(keys, dens_kind='density', with_replace=False):
             dens = rho
         else:
             kw['natural_density'] = rho
-            dens = formulas.formula(mol, natural_density=rho).density   # conversion is C12's subject
+            # natural density -> density at unchanged cell volume (independent of the library's own conversion)
+            from .c12 import natural_counterpart_mass
+            from .c02 import oracle_mass
+            dens = rho * sum(c * oracle_mass(P[k]) for c, k in zip(counts, keys)) / sum(c * natural_counterpart_mass(P[k]) for c, k in zip(counts, keys))
         oH, oD = _solvent_slds(data, lam)
         osub = _substituted(E, keys, counts, data, dens, lam, d)
         # v = 1: the compound with a fraction d of labile H replaced by D
